@@ -19,6 +19,7 @@ import Ptn.C10.SvdRun
 import Ptn.C10.TruncValue
 import Ptn.C10.TruncValueDemo
 import Ptn.C10.LevelRun
+import Ptn.C10.LevelFlatRun
 /-! Property theorems for C10 (selection rule of the singular-value truncation).  Only property
 theorems and non-vacuity examples live here; helper lemmas are in `Lemmas.lean`, the
 specification vocabulary (`Desc`, `NonNeg`, `survives`, `Fits`, `capMin`, `renormFactor`) in
@@ -1109,5 +1110,62 @@ example : ∃ t' g' v', Lr54LevelRun (R := Int) SimDemo.dim SimDemo.e 1 ⟨fun _
   exact ⟨t', g', v', hlr, this.2.2.2.2.2.2.1⟩
 
 end level_run
+
+section level_flat
+open Ptn.C02 Ptn.C03 Ptn.Ein NodeS
+variable {R : Type} [CommSemiring R]
+
+/-- **`truncate_node`, one node with all its children, FLAT form (builder B62).**  `Lr54LevelRun` is the value-level
+history of the first loop of `truncate_node(n)`; the read-only prefix `pre` of each round consists of accesses (library:
+`[.access n]`).  Contract of the caller: `n` and every child `c` of the list are nodes of the network the loop starts from
+(the library reads the list of children before the loop).  Then there is a list `all` of insertion records (`Ins` of
+`ValueRun.lean`: old bond `(a, b)`, fresh legs `a'` = the counter at the insertion, `b' = a' + 1`, matrix `Pm = Π_c`), one per
+child in order, such that every `Π_c` reads only its two fresh legs, the fresh labels start at the counter of the original
+network and grow by at least four per child, EVERY cut bond `(a, b)` is a bond of the ORIGINAL network, and the value after
+the level is `netValue (bs ++ all.flatMap Ins.cut) (all.map Ins.Pm ++ leaves)` with `leaves` the tensors of the original
+network and `bs = lf62Erase v.bonds all` its bonds without the cut ones: the original network with `Π_c` on every child bond
+at once - the right-hand record of `recursive_truncation_value_telescope` / `recursive_truncation_identity_value`. -/
+theorem truncate_node_level_flat_value (dim : Nat → Nat) (e : Label → Nat) {n : Id} {ids : TTN.TempIds}
+    {kdim : Id → Nat} {pre : List TOp} {t t' : TTN} {g g' : LegMap} {v v' : VNet R} {es : List (Lr54Entry R)}
+    (hacc : ∀ op ∈ pre, ∃ id, op = TOp.access id)
+    (h : t.WF) (hl : t.LWF) (hv : v.WF) (hs : RSim dim e g t v)
+    (hr : Lr54LevelRun dim e n ids kdim pre t g v es t' g' v')
+    (hn : n ∈ v.ids) (hc : ∀ x ∈ es, x.c ∈ v.ids) :
+    ∃ all : List (Ins Nat R), all.map Ins.Pm = es.map (·.Pi) ∧ all.map Ins.a' = es.map (·.a) ∧
+      (∀ i ∈ all, i.b' = i.a' + 1) ∧
+      (∀ i ∈ all, DependsOn (fun l => l = i.a' ∨ l = i.b') i.Pm) ∧
+      (∀ i ∈ all, v.next ≤ i.a') ∧ all.Pairwise (fun x y => x.a' + 4 ≤ y.a') ∧
+      (∀ i ∈ all, i.plain ∈ v.bonds) ∧
+      ∀ σ, v'.value dim σ =
+        netValue dim (lf62Erase v.bonds all ++ all.flatMap Ins.cut) (all.map Ins.Pm ++ v.ids.map v.tens) σ := by
+  obtain ⟨all, e1, e2, e3, e4, e5, e6, e7, e8, e9, hval⟩ := lf62_level_flat_core dim e hacc h hl hv hs hr
+  have horig := e9 v.ids v.next (fun k hk => ⟨hk, fun l hl' => hv.fresh k hk l hl'⟩) hn hc
+  refine ⟨all, e1, e2, e3, e5, e6, e7, ?_, hval (lf62Sep_of_orig all horig e6 e3 e7)⟩
+  intro i hi
+  rcases e8 i hi with hm | hm | hm
+  · exact hm
+  · have := (horig i hi).1; omega
+  · have := (horig i hi).2; omega
+
+open Ptn.C02.SimDemo Ptn.C10.TvDemo in
+/-- non-vacuity of `truncate_node_level_flat_value` and `truncate_node_child_flat_value`: the two-node network of `SimDemo`,
+    the single child `2` of node `1`, `Π = |0⟩⟨0|` (not the delta), the exact split of `TvDemo.factb`, empty prefix (the
+    access of node `1` changes the demo state - it applies the pending permutation - and `TvDemo.simrunb` starts before it) -/
+example : ∃ (v' : VNet Int) (p : Nat × Nat), p ∈ v0.bonds ∧ (∀ σ, VNet.value SimDemo.dim v' σ =
+    netValue SimDemo.dim (v0.bonds.erase p ++ (lf62Ins v0 p Pi0).cut) (Pi0 :: v0.ids.map v0.tens) σ) ∧
+    ∃ all : List (Ins Nat Int), all.map Ins.Pm = [Pi0] ∧ (∀ i ∈ all, i.plain ∈ v0.bonds) ∧
+      ∀ σ, VNet.value SimDemo.dim v' σ = netValue SimDemo.dim (lf62Erase v0.bonds all ++ all.flatMap Ins.cut)
+        (all.map Ins.Pm ++ v0.ids.map v0.tens) σ := by
+  obtain ⟨hid, hadm, hdep, t', g', v', hr⟩ := simrunb
+  obtain ⟨p, hp, _, hval⟩ := truncate_node_child_flat_value (ids := ⟨fun _ => 7, fun _ => 8, fun _ => 9⟩) (k := 3)
+    SimDemo.dim SimDemo.e t0_wf.1 t0_wf.2 v0_wf rsim0 (.cons hadm hid (.nil _ _ _)) hdep hr
+  have hlr : Lr54LevelRun (R := Int) SimDemo.dim SimDemo.e 1 ⟨fun _ => 7, fun _ => 8, fun _ => 9⟩ (fun _ => 3) []
+      t0 SimDemo.g v0 [⟨2, v0.next, Pi0⟩] t' g' v' :=
+    .cons (.nil _ _ _) (.cons hadm hid (.nil _ _ _)) hdep hr (.nil _ _ _)
+  obtain ⟨all, a1, _, _, _, _, _, a7, a8⟩ := truncate_node_level_flat_value SimDemo.dim SimDemo.e (by simp)
+    t0_wf.1 t0_wf.2 v0_wf rsim0 hlr (by decide) (by decide)
+  exact ⟨v', p, hp, hval, all, by simpa using a1, a7, a8⟩
+
+end level_flat
 
 end Ptn.C10
